@@ -70,28 +70,29 @@ type simProc struct {
 }
 
 type sim struct {
-	c            *vs.Case
-	t            vs.Failer
-	w            *vs.MyWorld
-	zk           *vs.ZKServer
-	opts         simOpts
-	dir          string
-	procs        map[string]*simProc // current incarnation per host
-	all          []*simProc
-	ports        map[int]*simProc
-	mu           sync.Mutex
-	panics       []simPanic
-	nextInc      map[string]int
-	startNo      map[string]int
-	found        []finding
-	closed       bool
-	healthAt     map[*tickRec]*nodestate.NodeState
-	regHA        map[*tickRec][]string
-	lastSwitchAt map[*tickRec]string
-	stateLoops   atomic.Int64
-	lockEvents   []lockEvent
-	traceFrom    int
-	ackerWindow  bool
+	excuseWritesOn map[string]bool // hosts whose acknowledged commits may be lost by design (asynchronous replication + crash)
+	c              *vs.Case
+	t              vs.Failer
+	w              *vs.MyWorld
+	zk             *vs.ZKServer
+	opts           simOpts
+	dir            string
+	procs          map[string]*simProc // current incarnation per host
+	all            []*simProc
+	ports          map[int]*simProc
+	mu             sync.Mutex
+	panics         []simPanic
+	nextInc        map[string]int
+	startNo        map[string]int
+	found          []finding
+	closed         bool
+	healthAt       map[*tickRec]*nodestate.NodeState
+	regHA          map[*tickRec][]string
+	lastSwitchAt   map[*tickRec]string
+	stateLoops     atomic.Int64
+	lockEvents     []lockEvent
+	traceFrom      int
+	ackerWindow    bool
 }
 
 var (
